@@ -2,28 +2,32 @@ import DclabModel.Model.Hier
 import DclabModel.DriveUtil
 /-! Line-protocol driver for the hierarchy model (C04). Levels are numbered 0 = root … d = youngest.
 
-    new <fixed 0|1> <n> <depth>      start a case (features follow)            → ok
+    new <fixed 0|1> <snap 0|1> <n> <depth>   start a case (features follow)    → ok
     feat <v0> <v1> …                 values of the next box-filterable feature  → ok
     init                             build root and `depth` children            → ok
     set <level> <f> <lo> <hi>        config range of feature f                  → ok
     man <level> <p> <0|1>            filter.manual[p] = b                       → ok | err:index
     rejuv                            youngest.rejuvenate()                      → ok | err:index
-    state <level>                    → `len=… ids=… all=… man=… mr=… view=0|1 low=0|1 up=0|1 spec=0|1`
+    rejuvat <level>                  L_level.rejuvenate() (members below are left alone)
+    state <level>                    → `len=… ids=… all=… man=… mr=… pc=0|1 view=0|1 low=0|1 up=0|1 spec=0|1`
+       pc   : HierarchyFilter.parent_changed of that member (0 for the root)
        view : ids = sel(parent.all, parent ids) ∧ len = count(parent.all)      (theorem 2)
-       low  : gM ∩ ids ⊆ excluded,  up : excluded ⊆ gEver                       (theorem 3)
+       low  : gM ∩ ids ⊆ excluded,  up : excluded ⊆ gM                          (theorem 3)
        spec : all = specAll                                                    (theorem 4)
 -/
 open DclabModel.Hier DclabModel.DriveUtil
 
 structure St where
   fixed : Bool := true
+  snap : Bool := true
   D : Data := { n := 0, feats := [] }
   depth : Nat := 0
   s : List Level := []
 
 def pos (st : St) (lvl : Nat) : Option Nat := if lvl ≤ st.depth then some (st.depth - lvl) else none
 
-/-- would numpy raise IndexError inside `retrieve_manual_indices` of some member? -/
+/-- would numpy raise IndexError inside `retrieve_manual_indices` of some member?
+(only the code before the F32 repair, `snap = false`) -/
 def retrieveOk (fixed : Bool) : List Level → Bool
   | [] => true
   | c :: anc =>
@@ -44,27 +48,32 @@ def showState (st : St) (k : Nat) : String :=
       | p :: _ => decide (c.ev = sel p.all p.ev ∧ c.len = cnt p.all)
     let ex := excl c
     let low := c.gM.all (fun r => !c.ev.contains r || ex.contains r)
-    let up := ex.all (fun r => c.gEver.contains r)
+    let up := ex.all (fun r => c.gM.contains r)
     let b (x : Bool) : String := if x then "1" else "0"
     s!"len={c.len} ids={showNats c.ev} all={showBools c.all} man={showBools c.manual} " ++
-    s!"mr={showNats c.manRoot} view={b view} low={b low} up={b up} spec={b (c.all == specAll st.D c)}"
+    let pc := match anc with
+      | [] => false
+      | _ :: _ => key st.fixed anc != c.phash
+    s!"mr={showNats c.manRoot} pc={b pc} view={b view} low={b low} up={b up} " ++
+    s!"spec={b (c.all == specAll st.D c)}"
 
 def handle (st : St) (line : String) : St × String :=
   match words line with
-  | ["new", fx, n, d] =>
-    match fx.toNat?, n.toNat?, d.toNat? with
-    | some fx, some n, some d =>
-      ({ fixed := fx != 0, D := { n := n, feats := [] }, depth := d, s := [] }, "ok")
-    | _, _, _ => (st, "bad-op")
+  | ["new", fx, sn, n, d] =>
+    match fx.toNat?, sn.toNat?, n.toNat?, d.toNat? with
+    | some fx, some sn, some n, some d =>
+      ({ fixed := fx != 0, snap := sn != 0, D := { n := n, feats := [] }, depth := d, s := [] },
+       "ok")
+    | _, _, _, _ => (st, "bad-op")
   | "feat" :: vs => match parseInts vs with
     | some v => ({ st with D := { st.D with feats := st.D.feats ++ [v] } }, "ok")
     | none => (st, "bad-op")
-  | ["init"] => ({ st with s := initChain st.fixed st.D st.depth }, "ok")
+  | ["init"] => ({ st with s := initChain st.fixed st.snap st.D st.depth }, "ok")
   | ["set", lvl, f, lo, hi] =>
     match lvl.toNat?, f.toNat?, parseInt? lo, parseInt? hi with
     | some lvl, some f, some lo, some hi =>
       match pos st lvl with
-      | some k => ({ st with s := step st.fixed st.D st.s (.setRange k f lo hi) }, "ok")
+      | some k => ({ st with s := step st.fixed st.snap st.D st.s (.setRange k f lo hi) }, "ok")
       | none => (st, "bad-op")
     | _, _, _, _ => (st, "bad-op")
   | ["man", lvl, p, b] =>
@@ -75,14 +84,24 @@ def handle (st : St) (line : String) : St × String :=
         match st.s.drop k with
         | c :: _ =>
           if p < c.manual.length then
-            ({ st with s := step st.fixed st.D st.s (.manual k p (b != 0)) }, "ok")
+            ({ st with s := step st.fixed st.snap st.D st.s (.manual k p (b != 0)) }, "ok")
           else (st, "err:index")
         | [] => (st, "bad-op")
       | none => (st, "bad-op")
     | _, _, _ => (st, "bad-op")
   | ["rejuv"] =>
-    if retrieveOk st.fixed st.s then ({ st with s := step st.fixed st.D st.s .rejuv }, "ok")
+    if st.snap || retrieveOk st.fixed st.s then
+      ({ st with s := step st.fixed st.snap st.D st.s .rejuv }, "ok")
     else (st, "err:index")
+  | ["rejuvat", lvl] =>
+    match lvl.toNat? with
+    | some lvl => match pos st lvl with
+      | some k =>
+        if st.snap || retrieveOk st.fixed (st.s.drop k) then
+          ({ st with s := step st.fixed st.snap st.D st.s (.rejuvAt k) }, "ok")
+        else (st, "err:index")
+      | none => (st, "bad-op")
+    | none => (st, "bad-op")
   | ["state", lvl] =>
     match lvl.toNat? with
     | some lvl => match pos st lvl with
